@@ -45,6 +45,11 @@ fn all_groupings(rules: &[&str]) -> Vec<Vec<RuleGroup>> {
         }
         out.push(gs.clone());
         for pos in 0..=gs.len() { let mut e = gs.clone(); e.insert(pos, RuleGroup { name: "empty".into(), rule: vec![], description: String::new() }); out.push(e); }
+        // lines that hold no rule (a comment, a blank line, spaces) at every position inside every group, and as a group of their own
+        for filler in [";; a note", "", "   "] {
+            for gi in 0..gs.len() { for pos in 0..=gs[gi].rule.len() { let mut e = gs.clone(); e[gi].rule.insert(pos, filler.to_string()); out.push(e); } }
+            let mut e = gs.clone(); e.insert(0, RuleGroup { name: "filler".into(), rule: vec![filler.to_string()], description: String::new() }); out.push(e);
+        }
     }
     out
 }
@@ -71,7 +76,7 @@ fn project_groups_ii(root: &str) -> Option<(Vec<RuleGroup>, Vec<String>, Vec<Str
 pub fn run() -> i32 {
     let mut r = Report::new("C10");
     let thorough = r.thorough();
-    r.rule = "(A) for every state s of the C08 BFS (reached by its shortest history h from seed w) and every rule r of the 66-rule alphabet: run(h.r)(w) vs run(r)(render(run(h)(w))) through the public API, whenever the intermediate rendering has no �; a separate box with americanist seed words and one with words typed with the ASCII shorthands ' , : ; over an alphabet that creates and removes the five americanist segments; (B) every history of <= n rules: every grouping into rule groups, with an empty group at every position, vs one group per rule; (C) the shipped germanic and indo-iranian example projects (frozen copy and live copy): every split point of the concatenated rule-group list x every word. Non-trivial = the rules changed the word.".into();
+    r.rule = "(A) for every state s of the C08 BFS (reached by its shortest history h from seed w) and every rule r of the 66-rule alphabet: run(h.r)(w) vs run(r)(render(run(h)(w))) through the public API, whenever the intermediate rendering has no �; a separate box with americanist seed words and one with words typed with the ASCII shorthands ' , : ; over an alphabet that creates and removes the five americanist segments; (B) every history of <= n rules: every grouping into rule groups, with an empty group at every position and with a comment-only / blank / whitespace line at every position inside every group, vs one group per rule; (C) the shipped germanic and indo-iranian example projects (frozen copy and live copy): every split point of the concatenated rule-group list x every word. Non-trivial = the rules changed the word.".into();
     let all_rules: Vec<&str> = super::c08::RULES.to_vec();
     let no_edge = |_: &CW, _: usize, _: &Step| -> Vec<Viol> { vec![] };
     let no_state = |_: &CW| -> Option<(String, String)> { None };
